@@ -25,7 +25,9 @@ ASSUMPTIONS = ['one permutation per map key-set per path (an order that changes 
 
 
 def bounds(tier):
-    return {'user types per description': '<= 3 (+ generated vftable types)', 'orders': 'all permutations of user keys per iterated map',
+    return {'user types per description': '<= 3 (+ generated vftable types)',
+            'orders': 'graph / vft slices: every permutation of the user keys of every iterated map, chosen independently per key set (8 representative orders beyond 4 keys); '
+                      'scope / vft-import slices: one total order per run that every iteration follows — all 24 relative orders of the first 4 user keys met, later keys behind them',
             'pointer_size': [4, 8], 'outside': 'the statement\'s 6 types; orders changing between rounds; byte-level output'}
 
 
@@ -50,6 +52,19 @@ def order_hook(I, m):
             return False
     user = [i for i, e in enumerate(entries) if not predefined(e)]
     if len(user) <= 1: return entries
+    if getattr(I, 'order_mode', 'independent') == 'global':
+        # one total order of all user keys per run, extended as new keys appear: every iteration in the second build follows it.
+        # The first 4 keys met may be inserted anywhere (all 24 relative orders), later ones go to the back.
+        rank = I.order_choice.setdefault('rank', [])
+        for i in sorted(user, key=lambda i: keys[i]):
+            if keys[i] in rank: continue
+            if len(rank) < 4:
+                pos = I.choose(len(rank) + 1, 'order')
+            else:
+                pos = len(rank)
+            rank.insert(pos, keys[i])
+        perm = sorted(user, key=lambda i: rank.index(keys[i]))
+        return [e for i, e in enumerate(entries) if i not in user] + [entries[i] for i in perm]
     ks = tuple(sorted(keys[i] for i in user))
     idx = I.order_choice.get(ks)
     if idx is None:
@@ -69,12 +84,17 @@ def order_hook(I, m):
     return out
 
 
+def order_hook_global(I, m):
+    I.order_mode = 'global'
+    return order_hook(I, m)
+
+
 def graph_assume(a, k, ps, nfmax, kinds, orders):
     return c10.assume(a, k, ps, nfmax, kinds, orders)
 
 
 def vft_assume(a, ps):
-    return [a[0] == ps, z3.ULE(a[1], 4), z3.ULE(a[2], 4), z3.ULE(a[3], 4), z3.ULE(a[4], 4)]
+    return [a[0] == ps, z3.ULE(a[1], 4), z3.ULE(a[2], 4), z3.ULE(a[3], 4), z3.ULE(a[4], 4), z3.ULE(a[5], 1)]
 
 
 def slices(tier, rng):
@@ -87,11 +107,16 @@ def slices(tier, rng):
         out.append(g('graph-k3-ps4', 3, 4, 1, [0, 1, 2, 5], [0]))
         out.append(g('graph-k2-ps8', 2, 8, 2, [6, 1, 2, 5], [0]))
     from . import c11
-    out.append(Slice('scope-ps4', 't_order_scope', 11, lambda a: c11.assume(a, 4, 2) + [a[1] == 0, a[5] == 0],
-                     opts={'map_order': order_hook, 'must_reach': ['ok/ok']}, ctx={'t': 'scope'}))
+    out.append(Slice('scope-ps4', 't_order_scope', 11, lambda a: c11.assume(a, 4, 2) + [a[1] == 0, a[5] == 0] +
+                     ([z3.Or(a[7 + i] == 0, a[7 + i] == 1, a[7 + i] == 2, a[7 + i] == 3, a[7 + i] == 4, a[7 + i] == 8) for i in range(2)] if tier == 'quick' else []),
+                     opts={'map_order': order_hook_global, 'must_reach': ['ok/ok']}, ctx={'t': 'scope'}))
     for ps in ((4,) if tier == 'quick' else (4, 8)):
-        out.append(Slice('vft-ps%d' % ps, 't_order_vft', 5, lambda a, ps=ps: vft_assume(a, ps) + ([a[4] == 0, a[3] == 0] if tier == 'quick' else []),
+        out.append(Slice('vft-ps%d' % ps, 't_order_vft', 6, lambda a, ps=ps: vft_assume(a, ps) + [a[5] == 0] + ([a[4] == 0, a[3] == 0] if tier == 'quick' else []),
                          opts={'map_order': order_hook, 'must_reach': ['ok/ok']}, ctx={'t': 'vft'}))
+        # an imported module declares a type named like a generated vftable type
+        out.append(Slice('vft-import-ps%d' % ps, 't_order_vft', 6,
+                         lambda a, ps=ps: vft_assume(a, ps) + [a[5] == 1] + ([z3.Or(a[4] == 0, a[4] == 2), z3.Or(a[3] == 0, a[3] == 2), z3.ULE(a[1], 2), a[2] == 0] if tier == 'quick' else []),
+                         opts={'map_order': order_hook_global, 'must_reach': ['ok/ok']}, ctx={'t': 'vft'}))
     return out
 
 
@@ -129,8 +154,9 @@ def native_confirm(S, sl, args, expected, qname):
 def region_env(a, sl):
     if sl.ctx['t'] == 'vft':
         gen = lambda x: z3.Or(x == 2, x == 3)
-        return {'signature_names_generated_vftable': z3.Or(gen(a[1]), gen(a[2]))}
-    return {'signature_names_generated_vftable': z3.BoolVal(False)}
+        return {'signature_names_generated_vftable': z3.Or(gen(a[1]), gen(a[2])),
+                'field_names_generated_vftable_that_an_import_declares': z3.And(a[5] != 0, a[4] == 2)}
+    return {'signature_names_generated_vftable': z3.BoolVal(False), 'field_names_generated_vftable_that_an_import_declares': z3.BoolVal(False)}
 
 
 def describe(template, args):
@@ -143,4 +169,5 @@ def describe(template, args):
     return ('// pointer size %d (built twice with different hash-map iteration orders)\n'
             'pub type A { vftable { pub fn f(&self); }, pub x: *const u8 }\npub type B { pub y: *const u8%s }\n'
             'impl B { #[address(16)] pub fn g(&self, p: %s); }\npub type C { vftable { pub fn h(&self, q: %s); }, pub z: *const u8 }\n'
-            '#[address(32)] pub extern ev: %s;') % (a[0], ', pub w: %s' % K.get(a[4], '?') if a[4] else '', K.get(a[1], '?'), K.get(a[2], '?'), K.get(a[3], '?'))
+            '#[address(32)] pub extern ev: %s;%s') % (a[0], ', pub w: %s' % K.get(a[4], '?') if a[4] else '', K.get(a[1], '?'), K.get(a[2], '?'), K.get(a[3], '?'),
+                                                     '\nuse n;   // module n: pub type AVftable { pub n0: *const u8, pub n1: *const u8 }' if len(a) > 5 and a[5] else '')
